@@ -147,67 +147,7 @@ class Normaliser:
                 r = self._root(n.func.value)
                 if r is not None:
                     self.mutated.add(r)
-        # names that may denote the same object as a mutated name are mutated too: `y = x`, `a = b = e`, `t = (x, y)`, `for y in (p, q)`
-        groups: Dict[str, str] = {}
-
-        def find(x):
-            groups.setdefault(x, x)
-            while groups[x] != x:
-                groups[x] = groups[groups[x]]
-                x = groups[x]
-            return x
-
-        def link(a, b):
-            groups[find(a)] = find(b)
-
-        def names_of_display(e):
-            return sorted(_may_alias(e))
-        # a display `c = (x, y)` makes a new object *holding* x and y; only when elements are taken out of c again (iteration, subscript,
-        # unpacking) can a mutation through what was taken out reach x or y
-        taken_apart = set()
-        for n in ast.walk(fn):
-            if isinstance(n, (ast.For, ast.comprehension)) and isinstance(n.iter, ast.Name):
-                taken_apart.add(n.iter.id)
-            elif isinstance(n, (ast.Subscript, ast.Attribute)) and isinstance(n.value, ast.Name) and isinstance(n.ctx, ast.Load):
-                taken_apart.add(n.value.id)
-            elif isinstance(n, ast.Starred) and isinstance(n.value, ast.Name):
-                taken_apart.add(n.value.id)
-            elif isinstance(n, ast.Assign) and isinstance(n.value, ast.Name) and any(isinstance(t, (ast.Tuple, ast.List)) for t in n.targets):
-                taken_apart.add(n.value.id)
-        for n in ast.walk(fn):
-            if isinstance(n, ast.Assign):
-                tn = [nm for t in n.targets for nm in names_of_display(t)]
-                for a_, b_ in zip(tn, tn[1:]):
-                    if len(n.targets) > 1:
-                        link(a_, b_)
-                if isinstance(n.value, ast.Name):
-                    for a_ in tn:
-                        link(a_, n.value.id)
-                else:
-                    vn = names_of_display(n.value)
-                    for t in n.targets:
-                        if isinstance(t, ast.Name):
-                            if t.id in taken_apart or isinstance(n.value, (ast.IfExp, ast.BoolOp)):
-                                for b_ in vn:
-                                    link(t.id, b_)
-                        elif isinstance(t, (ast.Tuple, ast.List)) and isinstance(n.value, (ast.Tuple, ast.List)) and len(t.elts) == len(n.value.elts):
-                            for te, ve in zip(t.elts, n.value.elts):
-                                for a_ in names_of_display(te):
-                                    for b_ in names_of_display(ve):
-                                        link(a_, b_)
-                        else:
-                            # d[k] = x / o.a = x: x is now held by d / o; matters when things are taken out of d / o again
-                            for a_ in names_of_display(t):
-                                if a_ in taken_apart:
-                                    for b_ in vn:
-                                        link(a_, b_)
-            elif isinstance(n, (ast.For, ast.comprehension)):
-                for a_ in names_of_display(n.target):
-                    for b_ in names_of_display(n.iter):
-                        link(a_, b_)
-        if self.mutated and groups:
-            roots = {find(x) for x in self.mutated if x in groups}
-            self.mutated |= {x for x in list(groups) if find(x) in roots}
+        self.mutated |= _mutated_names(fn, self._root)
         self.alias: Dict[str, str] = {}   # dynamic: closed names that may denote the same object (union-find)
 
     def alias_find(self, x):
@@ -2609,7 +2549,7 @@ def normal_form(fn, consts=None, helpers=None, methods=None):
            defaults, tuple(nz.exo(d, {}) for d in fn.decorator_list))
     eff, _ = nz.block(_body(fn), {}, ())
     is_gen = any(isinstance(x, (ast.Yield, ast.YieldFrom)) for x in ast.walk(fn))
-    return (sig, _renumber(_prune_evals(_drop_dead_binds(_drop_alias_binds(tuple(strip_tail(eff, "return")) if not is_gen else tuple(eff))))))
+    return (sig, _renumber(_prune_evals(_drop_dead_binds(_inline_single_use(_drop_alias_binds(tuple(strip_tail(eff, "return")) if not is_gen else tuple(eff)))))))
 
 
 def _int_const(x):
@@ -2839,6 +2779,153 @@ def _prune_evals(effs):
     return rec(effs)
 
 
+def _mutated_names(fn, root_of) -> set:
+    """local names whose object may be mutated somewhere in fn (they have to stay variables: a display or call bound to such a name denotes ONE object).
+    Three relations over names are collected syntactically: same(a, b) -- may be the same object (`a = b`, chained targets, arms of a conditional, a call's
+    result and its arguments); holds(c, x) -- x was put into c (displays, `c[k] = x`, `c.append(x)`); elem(c, e) -- e was taken out of c (`e = c[k]`,
+    `for e in c`, unpacking).  A mutation event has a root name and a depth (`r.append(..)`, `r[k] = v`: the object r itself; `r[k].append(..)`,
+    `r[k][j] = v`: something inside r).  Mutating an object taken out of c may be mutating any object put into c."""
+    from collections import defaultdict
+    parent: Dict[str, str] = {}
+
+    def find(x):
+        parent.setdefault(x, x)
+        while parent[x] != x:
+            parent[x] = parent[parent[x]]
+            x = parent[x]
+        return x
+
+    def same(a, b):
+        parent[find(a)] = find(b)
+    holds, elems, derived = defaultdict(set), defaultdict(set), defaultdict(set)
+    events = []   # (root, depth)
+
+    def depth_root(e):
+        d = -1
+        while isinstance(e, (ast.Subscript, ast.Attribute, ast.Call)):
+            if not isinstance(e, ast.Call):
+                d += 1
+            e = e.func if isinstance(e, ast.Call) else e.value
+        return (e.id, d) if isinstance(e, ast.Name) else (None, d)
+
+    def bind(t, v):
+        """target t receives the value of expression v"""
+        if isinstance(t, (ast.Tuple, ast.List)):
+            if isinstance(v, (ast.Tuple, ast.List)) and len(v.elts) == len(t.elts) and not any(isinstance(x, ast.Starred) for x in list(t.elts) + list(v.elts)):
+                for te, ve in zip(t.elts, v.elts):
+                    bind(te, ve)
+            else:
+                for c in _may_alias(v):
+                    for te in ast.walk(t):
+                        if isinstance(te, ast.Name):
+                            elems[c].add(te.id)
+            return
+        if isinstance(t, ast.Starred):
+            bind(t.value, v)
+            return
+        if isinstance(t, (ast.Subscript, ast.Attribute)):
+            r, _d = depth_root(t)
+            if r is not None:
+                holds[r] |= _may_alias(v)
+            return
+        if not isinstance(t, ast.Name):
+            return
+        if isinstance(v, ast.Name):
+            same(t.id, v.id)
+        elif isinstance(v, (ast.IfExp, ast.BoolOp)):
+            for arm in ([v.body, v.orelse] if isinstance(v, ast.IfExp) else v.values):
+                bind(t, arm)
+        elif isinstance(v, (ast.Attribute, ast.Subscript)):
+            for c in _may_alias(v):
+                elems[c].add(t.id)
+        elif isinstance(v, (ast.Tuple, ast.List, ast.Set, ast.Dict)):
+            holds[t.id] |= _may_alias(v)
+        elif isinstance(v, ast.Call):
+            derived[t.id] |= _may_alias(v)   # the result may be (or hold) an argument: mutating the result may mutate them -- not the other way round
+        elif isinstance(v, ast.NamedExpr):
+            bind(t, v.value)
+
+    for n in ast.walk(fn):
+        if isinstance(n, ast.Assign):
+            names = [t for t in n.targets if isinstance(t, ast.Name)]
+            for a_, b_ in zip(names, names[1:]):
+                same(a_.id, b_.id)
+            for t in n.targets:
+                bind(t, n.value)
+                if names and isinstance(t, (ast.Tuple, ast.List)):
+                    for te in ast.walk(t):
+                        if isinstance(te, ast.Name):
+                            elems[names[0].id].add(te.id)    # yes_no = yes, no = ...
+        elif isinstance(n, ast.AnnAssign) and n.value is not None:
+            bind(n.target, n.value)
+        elif isinstance(n, (ast.For, ast.comprehension)):
+            it = n.iter
+            if isinstance(it, (ast.Tuple, ast.List, ast.Set)):
+                for e_ in it.elts:
+                    bind(n.target, e_)
+            else:
+                for c in _may_alias(it):
+                    for te in ast.walk(n.target):
+                        if isinstance(te, ast.Name):
+                            elems[c].add(te.id)
+        elif isinstance(n, ast.withitem) and n.optional_vars is not None:
+            bind(n.optional_vars, n.context_expr)
+        if isinstance(n, (ast.Assign, ast.AugAssign, ast.AnnAssign)):
+            for t in (n.targets if isinstance(n, ast.Assign) else [n.target]):
+                for x in ast.walk(t):
+                    if isinstance(x, (ast.Subscript, ast.Attribute)) and isinstance(x.ctx, (ast.Store, ast.Del)):
+                        r, d = depth_root(x)
+                        if r is not None:
+                            events.append((r, d))
+        elif isinstance(n, ast.Delete):
+            for t in n.targets:
+                if isinstance(t, (ast.Subscript, ast.Attribute)):
+                    r, d = depth_root(t)
+                    if r is not None:
+                        events.append((r, d))
+        elif isinstance(n, ast.Call) and isinstance(n.func, ast.Attribute) and n.func.attr in MUTATORS:
+            r, d = depth_root(n.func.value)
+            if r is not None:
+                events.append((r, d + 1))
+                holds[r] |= set().union(*[_may_alias(a) for a in n.args]) if n.args else set()
+    # propagate
+    def cls(x):
+        r = find(x)
+        return {y for y in list(parent) if find(y) == r} | {x}
+    mutated, inside = set(), set()   # objects mutated themselves / names something inside which is mutated
+    work = [("obj", r) for r, d in events] + [("in", r) for r, d in events if d > 0]   # the root stays one object in either case
+    while work:
+        kind, x = work.pop()
+        if kind == "obj":
+            if x in mutated:
+                continue
+            for y in cls(x):
+                mutated.add(y)
+            for y in cls(x):
+                for z in derived.get(y, ()):
+                    if z not in mutated:
+                        work.append(("obj", z))
+            # x may have been taken out of a container: it may be anything put into that container
+            for c, es in list(elems.items()):
+                if es & cls(x):
+                    for c2 in cls(c):
+                        for y in holds.get(c2, ()):
+                            if y not in mutated:
+                                work.append(("obj", y))
+        else:
+            if x in inside:
+                continue
+            for y in cls(x):
+                inside.add(y)
+                for z in derived.get(y, ()):
+                    work.append(("in", z))
+            for c2 in cls(x):
+                for y in set(holds.get(c2, ())) | set(elems.get(c2, ())):
+                    work.append(("obj", y))
+                    work.append(("in", y))
+    return mutated
+
+
 def _may_alias(e) -> set:
     """names whose object the value of the expression may be, contain or be part of: a name, an attribute / element of it, either arm of a conditional or
     of and/or, the elements of a display, whatever a call is given (its result may be one of its arguments or hold them); arithmetic, comparisons,
@@ -2865,6 +2952,89 @@ def _may_alias(e) -> set:
             out |= _may_alias(k.value)
         return out
     return set()
+
+
+def _inline_single_use(effs):
+    """`bind v = E` (E side-effect free, v numbered, bound once and read once in the whole form) directly followed by the effect that reads v in a part it
+    evaluates first and once (the expressions of do / return / raise / yield / store / bind / eval, the test of an if, the iterable of a for, the items of
+    a with): E takes the place of v.  Nothing happens between the two evaluations of E, so the variable was only a name for an intermediate value."""
+    def is_var(x):
+        return isinstance(x, tuple) and len(x) == 2 and x[0] == "v" and isinstance(x[1], int)
+
+    def count_reads(x, v, acc):
+        if isinstance(x, tuple):
+            if x == v:
+                acc[0] += 1
+                return
+            if len(x) == 3 and x[0] == "bind" and x[1] == v:
+                acc[1] += 1
+                count_reads(x[2], v, acc)
+                return
+            for y in x:
+                count_reads(y, v, acc)
+
+    def first_part(eff):
+        k = eff[0]
+        if k in ("do", "return", "raise", "yield", "yieldfrom", "eval"):
+            return [1]
+        if k in ("store", "bind"):
+            return [1, 2] if k == "store" else [2]
+        if k == "if":
+            return [1]
+        if k == "for":
+            return [2]
+        if k == "with":
+            return [1]
+        return []
+
+    def subst(x, v, e):
+        if isinstance(x, tuple):
+            if x == v:
+                return e
+            return tuple(subst(y, v, e) for y in x)
+        return x
+
+    def contains(x, v):
+        if isinstance(x, tuple):
+            return x == v or any(contains(y, v) for y in x)
+        return False
+
+    changed = True
+    rounds = 0
+    while changed and rounds < 30:
+        changed = False
+        rounds += 1
+
+        def rec(x):
+            nonlocal changed
+            if not isinstance(x, tuple):
+                return x
+            x = tuple(rec(y) for y in x)
+            if x and all(isinstance(y, tuple) and y and isinstance(y[0], str) for y in x):
+                out = list(x)
+                i = 0
+                while i < len(out) - 1:
+                    b, nxt = out[i], out[i + 1]
+                    if len(b) == 3 and b[0] == "bind" and is_var(b[1]) and _form_pure(b[2]) and not contains(b[2], b[1]):
+                        acc = [0, 0]
+                        count_reads(effs_ref[0], b[1], acc)
+                        parts = first_part(nxt)
+                        if acc == [1, 1] and parts and any(contains(nxt[p_], b[1]) for p_ in parts) and isinstance(nxt, tuple):
+                            new = list(nxt)
+                            for p_ in parts:
+                                new[p_] = subst(nxt[p_], b[1], b[2])
+                            if new[0] == "bind" and contains(new[1], b[1]):
+                                i += 1
+                                continue
+                            out[i:i + 2] = [tuple(new)]
+                            changed = True
+                            continue
+                    i += 1
+                x = tuple(out)
+            return x
+        effs_ref = [effs]
+        effs = rec(effs)
+    return effs
 
 
 def _drop_alias_binds(effs):
